@@ -22,6 +22,7 @@
 """A module to hold all usually accessible RF24 API via the RF24Network API"""
 
 import time
+import struct
 
 try:
     from typing import Tuple, Union, List, Optional
@@ -343,13 +344,14 @@ class NetworkMixin(RadioMixin):
             temp_buf = self._rf24.read()
             if temp_buf is None:
                 return ret_val
-            if (
-                not self.frame_buf.unpack(temp_buf)
-                or not is_address_valid(self.frame_buf.header.to_node)
-                or not is_address_valid(self.frame_buf.header.from_node)
-            ):
+            # validate before unpacking; a discarded frame must not overwrite the frame_buf
+            if len(temp_buf) < 8:
+                continue
+            from_node, to_node = struct.unpack("HH", temp_buf[:4])
+            if not is_address_valid(to_node) or not is_address_valid(from_node):
                 # print("discarding frame due to invalid network addresses.")
                 continue
+            self.frame_buf.unpack(temp_buf)
 
             # print(
             #     "Received frame: " + self.frame_buf.header.to_string(),
